@@ -321,6 +321,35 @@ class KBox:
         return self.tables[k]
 
     def instantiate(self, name, spec, shape, cpu, alias=None, expand=False):
+        """one instantiation; a kernel whose control flow depends on data values is run once per path (spqa.paths): the
+        returned run is the first path, its events are those of all paths (may-semantics for the footprint clauses) and
+        `run.paths` lists every path with its condition for the value clauses"""
+        c = self.get(cpu, expand)
+        if getattr(c.m, 'decisions', None) is None and not getattr(self, '_in_paths', False):
+            try:
+                return self._instantiate(name, spec, shape, cpu, alias, expand)
+            except Unsupported as e:
+                if 'data-dependent control flow' not in str(e):
+                    raise
+                from .paths import enumerate_paths
+                from .vals import NeedDecision
+                self._in_paths = True
+                try:
+                    paths = enumerate_paths(c.m, lambda: self._instantiate(name, spec, shape, cpu, alias, expand))
+                except NeedDecision:
+                    raise Unsupported(str(e) + ' (more than 64 paths)')
+                finally:
+                    self._in_paths = False
+                first = paths[0][0]
+                ev = []
+                for r_, log in paths:
+                    ev += list(r_.events)
+                first.events = ev
+                first.paths = paths
+                return first
+        return self._instantiate(name, spec, shape, cpu, alias, expand)
+
+    def _instantiate(self, name, spec, shape, cpu, alias=None, expand=False):
         c = self.get(cpu, expand)
         fname = spec.get('fn', name)
         run = Run(name, shape, cpu, 0, alias)
